@@ -111,18 +111,16 @@ def plan(ctx):
         for c in auto:
             items.append((c, (0, 2, 0, 2), False, 20000))
     else:
+        # every configuration with N <= 7 at the quick bounds; the pairwise-covering set of the N <= 4 configurations deeper
         configs = all_configs(7)
         for c in configs:
-            n = c["n"]
-            if n <= 3:
-                b = (2, 1, 3, 3)
-            elif n <= 5:
-                b = (1, 1, 3, 2)
-            else:
-                b = (1, 1, 2, 2)
-            items.append((c, b, False, 400000))
+            items.append((c, (1, 1, 2, 2) if c["n"] <= 5 else (1, 1, 1, 2), False, 200000))
+        fields = ["n_jobs", "batch_size", "pre_dispatch", "return_as", "n", "input", "order"]
+        cover, _rest = PC.pairwise_cover([c for c in all_configs(4) if c["n"] >= 1], fields)
+        for c in cover:
+            items.append((c, (2, 1, 3, 3) if c["n"] <= 3 else (1, 1, 3, 2), False, 400000))
         for c in configs:
-            if c["n"] in (2, 4) and c["order"] == "free":
+            if c["n"] in (2, 4) and c["order"] == "free" and c["input"] == "gen":
                 items.append((c, (1, 1, 1, 2), True, 100000))
     # n_jobs == 1: sequential fast path, no concurrency, one execution each
     for bs, pre, ra, n, inp in itertools.product(PC.BATCH, PC.PRE, ("list", "generator"), (0, 1, 2, 5) if quick else range(0, 8), ("gen", "list")):
@@ -146,7 +144,7 @@ def run(ctx):
                 "callback thread with <= PB pre-emptions at source-line granularity, <= OB non-FIFO completion picks, "
                 "<= EB environment deviations (batch duration for 'auto', inline completion); bounds per item are in "
                 "samples. quick = pairwise-covering configuration set + a VERIF_SEED-rotated 1/24 of the rest (N<=4); "
-                "thorough = every configuration with N<=7. distinct_nontrivial = distinct (verdict, results, execution "
+                "thorough = every configuration with N<=7 at PB 1 + the pairwise-covering set at PB 2. distinct_nontrivial = distinct (verdict, results, execution "
                 "order) outcomes observed")
     ctx.exhaustive = True
     ctx.assumptions += [
